@@ -107,7 +107,7 @@ func yield(i int) {
 	}
 }
 
-const ruleTracker = "2-6 goroutines, each with a drawn list of 5-40 operations (track local/remote, untrack, status, status listing with a filter, recover, recover all) over 3 CIDs on one real stateless tracker with a model daemon that answers immediately or after a short sleep; GOMAXPROCS drawn from {2,4,16}; each mix runs 3 times; oracle: race detector silent, no panic, all goroutines finish, the listing has at most one entry per CID; non-trivial = two goroutines touch the same CID and one of them writes; distinct by mix"
+const ruleTracker = "2-6 goroutines, each with a drawn list of 5-40 operations (track local/remote, untrack, status, status listing with a filter, recover, recover all) over 3 CIDs on one real stateless tracker with a model daemon that answers immediately (and, in half of the cases, fails every call for one of the CIDs); GOMAXPROCS drawn from {2,4,16}; each mix runs 3 times; oracle: race detector silent, no panic, all goroutines finish, the listing has at most one entry per CID, an error status always comes with its message; non-trivial = two goroutines touch the same CID and one of them writes; distinct by mix"
 
 func TestTrackerMix(t *testing.T) {
 	leg := ev.L("tracker-mix", ruleTracker)
@@ -122,8 +122,19 @@ func TestTrackerMix(t *testing.T) {
 		old := runtime.GOMAXPROCS(procs)
 		defer runtime.GOMAXPROCS(old)
 		self, other := gen.Peers[0], gen.Peers[1]
+		failC2 := rapid.Bool().Draw(t, "daemonFailsOneCid")
+		errStatus := api.TrackerStatusPinError | api.TrackerStatusUnpinError | api.TrackerStatusClusterError
+		tornCheck := func(pi *api.PinInfo) {
+			if pi != nil && pi.Status&errStatus != 0 && pi.Status != api.TrackerStatusUndefined && pi.Error == "" {
+				panic(fmt.Sprintf("status of %s is %s with an empty error message (torn read of a failing operation)", pi.Cid, pi.Status))
+			}
+		}
 		for rep := 0; rep < 3; rep++ {
 			f := fakes.NewTracker(self, rapid.SampledFrom([]int{2, 100}).Draw(t, "queue"), 2)
+			if failC2 {
+				bad := gen.Cids[2].String()
+				f.D.FailFor = func(kind string, c cid.Cid) bool { return c.String() == bad }
+			}
 			var workers []func()
 			for w := 0; w < nw; w++ {
 				w := w
@@ -147,10 +158,11 @@ func TestTrackerMix(t *testing.T) {
 							f.St.Rm(ctx, c)
 							f.T.Untrack(ctx, c)
 						case 3:
-							f.T.Status(ctx, c)
+							tornCheck(f.T.Status(ctx, c))
 						case 4:
 							seen := map[string]bool{}
 							for _, pi := range f.T.StatusAll(ctx, api.TrackerStatusUndefined) {
+								tornCheck(pi)
 								if seen[pi.Cid.String()] {
 									panic("StatusAll has two entries for " + pi.Cid.String())
 								}
@@ -416,6 +428,48 @@ func TestMetricsMix(t *testing.T) {
 			runAll(t, "metrics mix", workers)
 		}
 		leg.Case(fmt.Sprintf("ops=%v keys=%v", ops, keys), sharedWrite(ops, nil, []int{0, 1, 6, 7, 8}))
+	})
+}
+
+const ruleAlertFull = "a real metrics.Store + Checker whose alert channel nobody reads: one goroutine logs expired metrics under 300-400 distinct names, another runs CheckAll/CheckPeers in a loop, so that more alerts are raised than the channel holds; oracle: no call blocks (watchdog), no panic, race detector silent - a full alert channel is an error answer, not a wedge; non-trivial = always; distinct by parameters"
+
+func TestAlertChannelFull(t *testing.T) {
+	leg := ev.L("alert-channel-full", ruleAlertFull)
+	rapid.Check(t, func(t *rapid.T) {
+		n := rapid.IntRange(300, 400).Draw(t, "names")
+		checkers := rapid.IntRange(1, 2).Draw(t, "checkers")
+		store := metrics.NewStore()
+		checker := metrics.NewChecker(ctx, store, 3.0)
+		var done int32
+		var workers []func()
+		workers = append(workers, func() {
+			for i := 0; i < n; i++ {
+				store.Add(&api.Metric{Name: fmt.Sprintf("m%d", i), Peer: gen.Peers[i%3], Value: "1", Valid: true, Expire: time.Now().Add(-time.Hour).UnixNano()})
+				if i%8 == 0 {
+					runtime.Gosched()
+				}
+			}
+			// a few more rounds of checks after the last metric
+			time.Sleep(20 * time.Millisecond)
+			atomic.StoreInt32(&done, 1)
+		})
+		for c := 0; c < checkers; c++ {
+			c := c
+			workers = append(workers, func() {
+				for k := 0; atomic.LoadInt32(&done) == 0; k++ {
+					if (k+c)%2 == 0 {
+						checker.CheckAll()
+					} else {
+						checker.CheckPeers(gen.Peers[:3])
+					}
+				}
+				// the channel is full by now: further checks must still return
+				checker.CheckAll()
+				checker.CheckPeers(gen.Peers[:3])
+			})
+		}
+		runAll(t, "alert channel full", workers)
+		leg.Case(fmt.Sprintf("names=%d checkers=%d queued=%d", n, checkers, len(checker.Alerts())), true)
 	})
 }
 
